@@ -6,11 +6,24 @@
     {"op":"fs.images","old":"<hex>"|null,"new":"<hex>","k":n,"stale":bool[,"split":n]} →
         {"ok":{"images":[{"path":"<hex>"|null,"tmp":"<hex>"|null}…],"finished":bool,"err":bool,"pending":n}}
         representative post-crash images after the first k system calls (deduplicated).
+    {"op":"fs.shapes"} → {"ok":[{"old":"<hex>"|null,"chunks":["<hex>"…],"stale":bool}…]}
+        the content shapes of `AtomicSearch.shapes` (the ones named in `Props.C05.search_expected_safe`).
+    {"op":"fs.search","steps":[{"call":"<name>","onErr":"<name>"}|{"defer":["<name>"…]}…]|"expected",
+                      "tmp":"path+.tmp"|"path","old":"<hex>"|null,"chunks":["<hex>"…],"stale":bool} →
+        {"ok":"safe","explored":N}                       no counterexample among N post-crash states
+      | {"ce":{"kind":"notOldOrNew"|"ackedLost"|"failedChanged"|"rerunFails","k":n,
+               "fault":null|{"call":j,"bytes":n},"image":"kill"|"powerloss",
+               "mask":[bool…]|null,"pendingOps":["link 1 2"…],"tmpBytes":null|{"len":n,"garbage":bool},"tmpPending":n,
+               "loads":"<hex>"|null,"tmpLoads":"<hex>"|null,"finished":bool,"err":bool,
+               "trace":["removeTmp:ok"…]}}              first counterexample of `AtomicSearch.search`
+      | {"unrepresentable":"<name>"}                     a call / policy / temp name outside the model's vocabulary
+        counterexample search on THE GIVEN step list (the one regenerated from /repo), `Lungo.Model.AtomicSearch`.
 -/
 import Driver.Ops
 import Lungo.Model.AtomicWrite
+import Lungo.Model.AtomicSearch
 import Lungo.Expected.AtomicWrite
-open Lean Lungo Lungo.FS Lungo.AtomicWrite
+open Lean Lungo Lungo.FS Lungo.AtomicWrite Lungo.AtomicSearch
 namespace Driver
 
 def callName : Call → String
@@ -36,13 +49,6 @@ def optHex (o : Option Bytes) : Json :=
   match o with
   | none => Json.null
   | some b => Json.str (hexOfBytes b)
-
-def fsInit (old : Option Bytes) (stale : Bool) : State :=
-  { ino := fun i => if i = 0 then ⟨old.getD [], []⟩ else if i = 1 then ⟨[0xAA], [0xBB, 0xCC]⟩ else ⟨[], []⟩,
-    next := 2,
-    vdir := fun n => if n = 0 then (if old.isSome then some 0 else none) else if n = 1 then (if stale then some 1 else none) else none,
-    ddir := fun n => if n = 0 then (if old.isSome then some 0 else none) else if n = 1 then (if stale then some 1 else none) else none,
-    pending := [], fds := [] }
 
 def hexField (j : Json) (k : String) : Except String (Option Bytes) := do
   match ← Json.field j k with
@@ -71,6 +77,120 @@ def opFsImages : Op := fun j => do
     ("images", Json.arr (imgs.map (fun (p, t) => Json.mkObj [("path", optHex p), ("tmp", optHex t)])).toArray),
     ("finished", Json.bool r.2), ("err", Json.bool r.1.err), ("pending", Json.num ⟨r.1.fs.pending.length, 0⟩)]))
 
-def opsFS : List (String × Op) := [("fs.steps", opFsSteps), ("fs.images", opFsImages)]
+/-! ### fs.search -/
+
+def callOfName (n : String) : Option Call :=
+  [Call.removeTmp, .createExclTmp, .writeTmp, .fsyncTmp, .closeTmp, .renameTmpToPath, .openDir, .fsyncDir, .closeDir].find?
+    (fun c => callName c == n)
+
+def onErrOfName (n : String) : Option OnErr :=
+  [OnErr.ret, .retUnlessNotExist, .ignore].find? (fun e => onErrName e == n)
+
+/-- `.error name` = outside the vocabulary -/
+def stepOfJson (j : Json) : Except String (Except String Step) := do
+  match j.getObjVal? "call" with
+  | .ok (.str c) =>
+    let e ← match j.getObjVal? "onErr" with
+      | .ok (.str e) => pure e
+      | _ => throw "step: missing onErr"
+    match callOfName c, onErrOfName e with
+    | some c, some e => pure (.ok (.call c e))
+    | none, _ => pure (.error c)
+    | _, none => pure (.error e)
+  | _ =>
+    match j.getObjVal? "defer" with
+    | .ok (.arr cs) =>
+      let mut out : List Call := []
+      for c in cs do
+        match c with
+        | .str n => match callOfName n with
+          | some c => out := out ++ [c]
+          | none => return .error n
+        | _ => throw "defer: expected call names"
+      pure (.ok (.defer out))
+    | _ => throw "step: expected {call,onErr} or {defer}"
+
+def stepsOfJson (j : Json) : Except String (Except String (List Step)) := do
+  match j with
+  | .str "expected" => pure (.ok Expected.atomicWriteSteps)
+  | .arr a =>
+    let mut out : List Step := []
+    for x in a do
+      match ← stepOfJson x with
+      | .ok s => out := out ++ [s]
+      | .error n => return .error n
+    pure (.ok out)
+  | _ => throw "field steps: expected an array or \"expected\""
+
+def fsErrName : Option FS.Err → String
+  | none => "ok" | some .notExist => "notExist" | some .exist => "exist" | some .badFd => "badFd" | some .io => "io"
+
+def fsDirOpName : DirOp → String
+  | .link n i => s!"link {n} {i}" | .unlink n => s!"unlink {n}" | .rename a b i => s!"rename {a} {b} {i}"
+
+def fsKindName : Kind → String
+  | .notOldOrNew => "notOldOrNew" | .ackedLost => "ackedLost" | .failedChanged => "failedChanged" | .rerunFails => "rerunFails"
+
+def ceJson (P : Params) (ce : CE) : Json :=
+  let f := faultsOf ce.fault
+  let r := interpUpTo P.steps P.path P.tmp P.chunks f ce.k P.s0
+  let tr := traceUpTo P.steps P.path P.tmp P.chunks f ce.k P.s0
+  Json.mkObj [
+    ("kind", fsKindName ce.kind), ("k", Json.num ⟨ce.k, 0⟩),
+    ("fault", match ce.fault with
+      | none => Json.null
+      | some (j, n) => Json.mkObj [("call", Json.num ⟨j, 0⟩), ("bytes", Json.num ⟨n, 0⟩)]),
+    ("image", match ce.img with | none => "kill" | some _ => "powerloss"),
+    ("mask", match ce.img with
+      | none => Json.null
+      | some d => Json.arr (d.mask.map Json.bool).toArray),
+    ("pendingOps", Json.arr (r.1.fs.pending.map (fun o => Json.str (fsDirOpName o))).toArray),
+    ("tmpBytes", match ce.img with
+      | none => Json.null
+      | some d => Json.mkObj [("len", Json.num ⟨d.len, 0⟩), ("garbage", Json.bool d.flipped)]),
+    ("tmpPending", Json.num ⟨(r.1.tmpH.map (fun h => ((r.1.fs.ino h).pend).length)).getD 0, 0⟩),
+    ("loads", optHex (load ce.st P.path)), ("tmpLoads", optHex (load ce.st 1)),
+    ("finished", Json.bool r.2), ("err", Json.bool r.1.err),
+    ("trace", Json.arr (tr.map (fun e => Json.str (callName e.1 ++ ":" ++ fsErrName e.2))).toArray)]
+
+def fsHexList (j : Json) (k : String) : Except String (List Bytes) := do
+  match ← Json.field j k with
+  | .arr a =>
+    let mut out : List Bytes := []
+    for x in a do
+      match x with
+      | .str s => match parseHexBytes s with
+        | some b => out := out ++ [b]
+        | none => throw s!"field {k}: bad hex"
+      | _ => throw s!"field {k}: expected hex strings"
+    pure out
+  | _ => throw s!"field {k}: expected an array of hex strings"
+
+def opFsSearch : Op := fun j => do
+  let old ← hexField j "old"
+  let chunks ← fsHexList j "chunks"
+  let stale ← Json.fieldBool j "stale"
+  let inPlace ← match ← Json.field j "tmp" with
+    | .str "path+.tmp" => pure (some false)
+    | .str "path" => pure (some true)
+    | _ => pure none
+  match inPlace with
+  | none => pure (Json.mkObj [("unrepresentable", "tmp")])
+  | some inPlace =>
+  match ← stepsOfJson (← Json.field j "steps") with
+  | .error n => pure (Json.mkObj [("unrepresentable", n)])
+  | .ok steps =>
+    let P := paramsOf steps inPlace ⟨old, chunks, stale⟩
+    match search P with
+    | some ce => pure (Json.mkObj [("ce", ceJson P ce)])
+    | none => pure (Json.mkObj [("ok", "safe"), ("explored", Json.num ⟨explored P, 0⟩)])
+
+def opFsShapes : Op := fun _ =>
+  pure (okJ (Json.arr (shapes.map (fun sh => Json.mkObj [
+    ("old", optHex sh.old), ("chunks", Json.arr (sh.chunks.map (fun b => Json.str (hexOfBytes b))).toArray),
+    ("stale", Json.bool sh.stale)])).toArray))
+
+def opsFS : List (String × Op) :=
+  [("fs.steps", opFsSteps), ("fs.images", opFsImages), ("fs.search", opFsSearch), ("fs.shapes", opFsShapes)]
 
 end Driver
